@@ -376,10 +376,26 @@ def num_arith(op, a, b, wrapping=True):
             r = x % y
         return Num(r, bits, signed)
     elif op == 'BitAnd':
-        k = _pow2_mask(b.e) if b.concrete else (_pow2_mask(a.e) if a.concrete else None)
-        if k is None: raise Unmodelled('bit-and of symbolic integers in integer encoding')
+        if not (a.concrete or b.concrete): raise Unmodelled('bit-and of symbolic integers in integer encoding')
+        mask = (b.e if b.concrete else a.e) & ((1 << bits) - 1)
         other = x if b.concrete else y
-        return Num(other % (1 << k), bits, signed)
+        if signed: raise Unmodelled('bit-and on a signed symbolic integer in integer encoding')
+        # a constant mask is a union of contiguous bit runs: x & run = ((x div 2^lo) mod 2^len) * 2^lo
+        terms = []; i = 0
+        while i < bits:
+            if (mask >> i) & 1:
+                lo = i
+                while i < bits and (mask >> i) & 1: i += 1
+                ln = i - lo
+                t = (other / (1 << lo)) if lo else other
+                t = t % (1 << ln)
+                terms.append(t * (1 << lo) if lo else t)
+            else:
+                i += 1
+        if not terms: return Num(0, bits, signed)
+        r = terms[0]
+        for t in terms[1:]: r = r + t
+        return Num(r, bits, signed)
     elif op in ('Shl', 'ShlUnchecked'):
         if not b.concrete: raise Unmodelled('symbolic shift in integer encoding')
         r = x * (1 << (b.e % bits))
